@@ -30,8 +30,6 @@ Fixpoint nlist_eqb (a b : list nat) : bool :=
   | _, _ => false
   end.
 
-Definition memb (x : nat) (l : list nat) : bool := existsb (Nat.eqb x) l.
-
 Definition init_state (f : list tproc) : state :=
   map (fun t => mkProc (tp_parent t) (tp_kind t) (tp_trap t) (tp_lp t) (tp_lc t) Alive []) f.
 
